@@ -70,6 +70,14 @@ Theorem C08_inverse_applied_everywhere : inverse_on_dense = true /\ inverse_on_d
 Proof. exact inverse_applied_everywhere_all. Qed.
 Print Assumptions C08_inverse_applied_everywhere.
 
+(* omega targeting: the operator whose two layers optimize_mps contracts (expression regenerated from the omega branch of gs.py) means
+   H_given - omega * 1  for EVERY operator handed in, independently of the Hamiltonian of the model that operator was built on *)
+Theorem C08_omega_operator_is_given_minus_omega :
+  forall (M K : Type) (madd : M -> M -> M) (mscale : K -> M -> M) (mone : M) (kopp : K -> K) (kzero omega : K) (given modelH : M),
+  op_den M K madd mscale mone kopp kzero omega given modelH omega_shifted_operator = madd given (mscale (kopp omega) mone).
+Proof. exact omega_operator_is_given_minus_omega_all. Qed.
+Print Assumptions C08_omega_operator_is_given_minus_omega.
+
 (* non-vacuity: a 5-site 2-site run of three sweeps makes 42 observations, 18 of them disk reads; a 1-site one 54 *)
 Example C08_sweeps_nonvacuous :
   length (obsl (optimize true 5 true 3 (fun _ => O))) = 42%nat /\
